@@ -104,7 +104,7 @@ fn spec_strategy(depth: u32) -> BoxedStrategy<Spec> {
     }
     prop_oneof![
         3 => leaf,
-        2 => (name_strategy(), any::<bool>(), proptest::collection::vec(spec_strategy(depth - 1), 1..5)).prop_map(|(name, want_default, sub)| Spec { name, kind: 1, want_default, sub }),
+        2 => (name_strategy(), any::<bool>(), prop_oneof![9 => proptest::collection::vec(spec_strategy(depth - 1), 1..5), 1 => proptest::collection::vec(spec_strategy(depth.min(2) - 1), 6..10)]).prop_map(|(name, want_default, sub)| Spec { name, kind: 1, want_default, sub }),
     ]
     .boxed()
 }
@@ -208,8 +208,37 @@ fn renumber(nodes: &mut [TNode], next: &mut usize) {
 /// Trees of depth <= 4 with <= 5 children per branch, default leaves and
 /// branches, an occasional anonymous default leaf, numeric-suffix siblings and
 /// common commands at the root.
+/// A chain of `k` nested default branches ending in a default leaf, each level
+/// with one ordinary sibling leaf: `HEAD[:D1][:D2]...[:Dk][:LEAF]`.
+fn default_chain(k: usize, anonymous_end: bool) -> Spec {
+    let names = ["CHANnel", "STAGe", "FILTer", "LEVel", "IMMediate", "AMPLitude", "RANGe", "UPPer", "AUTO"];
+    let mut node = Spec { name: if anonymous_end { "ENDLeaf".to_string() } else { "VALue".to_string() }, kind: 0, want_default: true, sub: vec![] };
+    for i in (0..k).rev() {
+        let sibling = Spec { name: format!("SIB{i}"), kind: 0, want_default: false, sub: vec![] };
+        node = Spec { name: names[i % names.len()].to_string(), kind: 1, want_default: true, sub: vec![node, sibling] };
+    }
+    Spec { name: "OUTPut".to_string(), kind: 1, want_default: false, sub: vec![node, Spec { name: "OTHer".to_string(), kind: 0, want_default: false, sub: vec![] }] }
+}
+
 pub fn tree_strategy() -> impl Strategy<Value = Tree> {
-    (proptest::collection::vec(spec_strategy(3), 1..6), proptest::collection::vec("[A-Z]{2,4}", 0..3), proptest::collection::vec((0usize..64, prop_oneof![Just("2"), Just("3"), Just("10")]), 0..3)).prop_map(|(mut specs, commons, siblings)| {
+    prop_oneof![9 => tree_strategy_plain().boxed(), 1 => (tree_strategy_plain(), 2usize..9, any::<bool>()).prop_map(|(mut t, k, anon)| {
+        // graft a deep default chain onto a generated tree
+        let mut next_id = t.leaves;
+        let grafted = build(vec![default_chain(k, anon)], &mut next_id, false);
+        for g in grafted {
+            if !t.root.iter().any(|n| conflict(n.name(), g.name())) {
+                t.root.push(g);
+            }
+        }
+        let mut n = 0;
+        renumber(&mut t.root, &mut n);
+        t.leaves = count_leaves(&t.root);
+        t
+    }).boxed()]
+}
+
+fn tree_strategy_plain() -> impl Strategy<Value = Tree> {
+    (prop_oneof![8 => proptest::collection::vec(spec_strategy(3), 1..6), 1 => proptest::collection::vec(spec_strategy(5), 1..4), 1 => proptest::collection::vec(spec_strategy(1), 6..12)], proptest::collection::vec("[A-Z]{2,4}", 0..3), proptest::collection::vec((0usize..64, prop_oneof![Just("2"), Just("3"), Just("10")]), 0..3)).prop_map(|(mut specs, commons, siblings)| {
         // numeric-suffix siblings: the alphabetic part of an existing node with another suffix
         for (pick, sfx) in siblings {
             add_sibling(&mut specs, pick, sfx);
